@@ -33,7 +33,9 @@ CLAIMED["C06"] = ("Theorems: settlement grows the index by exactly floor((rate*b
     "a new position records the index settled to its own block (not retroactive); base paid <= base generated over every history; admin changes settle with the old parameters first.", "7 C06",
     "Coq characterisation theorems + reachability invariant + correspondence")
 CLAIMED["C07"] = ("Theorems: supply = sum of outstanding positions = sum held by accounts in every reachable state; merge preserves principal/compounded sums and never raises the un-rounded entitlement "
-    "(ceil-weighted index), for any number of merged positions; split floors the compounded share and complementary parts never exceed the whole; owner totals: see level note.", "7 C07",
+    "(ceil-weighted index), for any number of merged positions; split floors the compounded share and complementary parts never exceed the whole; each user's tracked total = sum of outstanding positions recorded for that user in every reachable state, also after transfers and use by another account. "
+    "Proved for dex/farm (Model/Farm.v), farm-with-locked-rewards (Model/FarmLocked.v), farm-staking at position level (Model/StakingPos.v: incl. the saturating decrease never saturating) and for histories containing the on-behalf endpoints with a real permissions hub (Props/C07_behalf.v: the agent holds the token, the user's total counts it). "
+    "Tied to the three real contracts by differential replay of attributes, holdings and per-user totals.", "32 C07",
     "Coq ledger invariant + merge/split algebra + correspondence")
 CLAIMED["C17"] = ("25 theorems on the price-discovery model: phase = documented piecewise function of the block and monotone; gates per phase; linear-then-fixed penalty exact, within bounds, "
     "staying in the pool; tracked balances = real holdings and supply = circulating redeem tokens in every reachable state before redeem; redeem pays floor(pool*amount/supply) once, total payouts <= pool over any history; "
@@ -69,10 +71,10 @@ CLAIMED["C15"] = ("19 theorems on the farm-staking-proxy model (callee answers a
     "for every history the proxy holds exactly the LP-farm and staking-farm tokens its outstanding dual-yield tokens record, all fungible balances 0; partial redemption = floor of the proportional share, sum of parts never exceeds the whole; "
     "unstake output order and unbond amount; registered staking value is the staking side of the safe-price (TWAP) answer and the only price query. Tied to the real pair + farm-with-locked-rewards + farm-staking + proxy by differential replay.",
     "19 C15", "Coq inductive invariant + characterisation theorems relative to stated callee laws + correspondence")
-CLAIMED["C19"] = ("32 theorems: the access table (648 rows = every exported endpoint of the 16 contracts in Gen/Endpoints.v, regenerated from the source each run, plus on-behalf variants incl. mixed-owner multi-payment calls; 13,230 cells) proved exhaustively by vm_compute + forallb_forall: allowed => caller holds the demanded role / is a configured counterparty / authorised agent; "
+CLAIMED["C19"] = ("59 theorems: 27 on the behavioural on-behalf models (Props/C19_behalf.v: a call succeeds only for a hub-listed, non-blacklisted agent with every paid position recorded for the user; rewards incl. locked receipts go to the user only; failure leaves the state unchanged; no principal leaves through on-behalf endpoints) and 32 on the table: the access table (648 rows = every exported endpoint of the 16 contracts in Gen/Endpoints.v, regenerated from the source each run, plus on-behalf variants incl. mixed-owner multi-payment calls; 13,230 cells) proved exhaustively by vm_compute + forallb_forall: allowed => caller holds the demanded role / is a configured counterparty / authorised agent; "
     "fund-moving rows disallowed when inactive or paused (pair bootstrap exception), partial-active = liquidity only; inventory covered, #[only_owner] attributes agree; for all inputs: require_any_of rule, no escalation and powerless callers over every permissions/hub history, on-behalf rule = hub view, revocation/blacklist stick, rewards to the original owner; "
     "on Model.Pair / Model.Farm for all states and arguments: inactive => no user-funds operation. Tied by executing the complete endpoint x role x state matrix on the real contracts (state restored between cells) and comparing every verdict; failing calls must not change state.",
-    "32 C19", "Coq finite decision table proved exhaustively + for-all-input guard/state-machine theorems + full matrix correspondence")
+    "59 C19", "Coq finite decision table proved exhaustively + for-all-input guard/state-machine theorems + full matrix correspondence")
 CLAIMED["C16"] = ("52 theorems on the proxy_dex model (pair, farms and energy factory are environment answers; the interface laws are boolean predicates evaluated where each answer is consumed, checked on every real answer, and each proved on the callee model - Model/Pair, Model/FarmLocked, Model/Energy/Penalty - with closed compositions C16_closed_*): "
     "Backed invariant for every lawful history and all positions at once (LP held >= user-held wrapped LP; farm tokens per nonce >= outstanding wrapped-farm supply; locked tokens per nonce >= sum of floor shares + wrapped-farm supply); "
     "remove returns locked tokens of the recorded nonce = min(received, part), base asset only as pool surplus, burns base + locked = part; exit with/without penalty for both farming-token kinds; base asset never paid except that surplus; merge; "
